@@ -37,3 +37,9 @@ func (v *VerifLocker) Len() int {
 	defer v.l.mu.Unlock()
 	return len(v.l.locks)
 }
+
+// VerifSetSectorRoots sets the cached sector roots of a contract
+// (Manager.setSectorRoots), which the integrity checks read after locking.
+func VerifSetSectorRoots(cm *Manager, id types.FileContractID, roots []types.Hash256) {
+	cm.setSectorRoots(id, roots)
+}
